@@ -16,8 +16,11 @@ def parseDir : String → Option Dir
   | "sr" => some .sendrecv | "so" => some .sendonly | "ro" => some .recvonly | "in" => some .inactive | _ => none
 def parseTy : String → Option SdpType
   | "o" => some .offer | "a" => some .answer | "p" => some .pranswer | "r" => some .rollback | _ => none
-def parseMode : String → Option Mode
-  | "w" => some .webrtc | "s" => some .srtp | "r" => some .rtp | _ => none
+/-- mode letter, `!` appended when every socket bind fails (environment) -/
+def parseMode : String → Option (Mode × Bool)
+  | "w" => some (.webrtc, false) | "s" => some (.srtp, false) | "r" => some (.rtp, false)
+  | "w!" => some (.webrtc, true) | "s!" => some (.srtp, true) | "r!" => some (.rtp, true)
+  | _ => none
 
 def parseFp (s : String) : Option Fp :=
   if s = "o" then some .otherAlg else if s = "m" then some .missing else if s = "i" then some .invalid
@@ -27,12 +30,12 @@ def parseFp (s : String) : Option Fp :=
 
 def parseSection (s : String) : Option Section :=
   match s.splitOn "," with
-  | [k, mid, dir, fmts, rtpmaps, extmaps] => do
+  | [k, mid, dir, fmts, rtpmaps, extmaps, a4, aa] => do
     some { kind := ← parseKind k, mid := ← strOfHex mid, dir := ← parseDir dir, formats := ← listOfHex fmts,
-           rtpmaps := ← listOfHex rtpmaps, extmaps := ← listOfHex extmaps }
+           rtpmaps := ← listOfHex rtpmaps, extmaps := ← listOfHex extmaps, addr4 := a4 = "1", addrAny := aa = "1" }
   | _ => none
 
-/-- `ty|id|eq|fp|sec;sec…` or a back reference `@id` to a description already seen on this line -/
+/-- `ty|id|eq|fp|groups|sec;sec…` or a back reference `@id` to a description already seen on this line -/
 def parseDesc (seen : List Desc) (s : String) : Option Desc :=
   match s.toList with
   | '@' :: r => do
@@ -40,9 +43,11 @@ def parseDesc (seen : List Desc) (s : String) : Option Desc :=
     seen.find? (·.id = id)
   | _ =>
     match s.splitOn "|" with
-    | [ty, id, eq, fp, secs] => do
+    | [ty, id, eq, fp, groups, secs] => do
       let sections ← if secs = "_" then some [] else (secs.splitOn ";").mapM parseSection
-      some { id := ← id.toNat?, ty := ← parseTy ty, eqKey := ← eq.toNat?, fp := ← parseFp fp, sections }
+      let groups ← if groups = "_" then some [] else
+        (groups.splitOn "+").mapM (fun g => if g = "~" then some none else (strOfHex g).map some)
+      some { id := ← id.toNat?, ty := ← parseTy ty, eqKey := ← eq.toNat?, fp := ← parseFp fp, sections, groups }
     | _ => none
 
 def parseCall (seen : List Desc) (t : String) : Option Call :=
@@ -105,7 +110,7 @@ def handle (stream : String) (args : List String) : String :=
   | "seq", _script :: mode :: trxs :: calls =>
     match parseMode mode, parseTrxs trxs with
     | some m, some ts =>
-      let pc0 := ts.foldl (fun pc kd => addTransceiver pc kd.1 kd.2) (Pc.new m)
+      let pc0 := ts.foldl (fun pc kd => addTransceiver pc kd.1 kd.2) (Pc.new m.1 m.2)
       let rec go (pc : Pc) (seen : List Desc) (cs : List String) (acc : List String) : List String :=
         match cs with
         | [] => acc.reverse
